@@ -36,6 +36,7 @@ METRICS = dict(center_distance_thresholds=[[1.0, 1.0], [0.4, 2.0]], plane_distan
 ALL_THR = {"cd": [1.0, 0.4, 2.0, 3.0, 1.5], "pd": [2.0, 1.0, 0.5], "iou": [0.3, 0.2]}
 
 
+PI_EGOS = [(10.0, -5.0, math.pi), (-3.0, 2.0, -math.pi), (250.0, 40.0, math.pi)]
 HIGH_EGOS = [(312.5, -148.25, 612.0, 0.7, 0.0, 0.0), (-20.0, 35.0, -45.0, -2.1, 0.0, 0.0)]
 FAR_EGOS = [(89412.25, 42356.5, 0.6), (-51234.5, 77001.75, -2.2), (41000.0, -93000.0, 3.0)]
 TWIN_DX = [0.0, 0.135, 0.3, 0.6, 1.3]
@@ -66,6 +67,13 @@ def units(tier, seed):
     # map-frame objects whose coordinates are all integers (hand-made / rounded inputs) against the float ego-frame rendering
     for e in egos:
         u.append(dict(task="intpos", ego=e))
+    # ego headings of exactly +-pi (a half turn: quaternion w = 0), and map-frame objects whose frame id is the plain string "map" (what the
+    # library's own convert_objects_to_global / interpolation produce)
+    for ei, eo in enumerate(PI_EGOS):
+        u.append(dict(task="detection", ego=0, ego_override=list(eo), policy="DEFAULT", mgr="wide", crit="box_per_label", kmax_e=2, chunk=[ei % 2, 2]))
+    for k in range(2):
+        u.append(dict(task="detection", ego=1, str_frame=True, policy="DEFAULT", mgr="wide", crit="ring", kmax_e=2, chunk=[k, 2]))
+    u.append(dict(task="tracking", ego=1, str_frame=True, policy="DEFAULT", mgr="wide", crit="box_per_label", pattern="swap"))
     # slightly tilted boxes (pitch / roll of 1-3 degrees) seen from a level ego whose map height is 612 m / -45 m (terrain elevation)
     for he in range(len(HIGH_EGOS)):
         for k in range(2):
@@ -130,6 +138,10 @@ def run_unit(unit, acc):
                 continue
             c = dict(task=unit["task"], ego_index=unit["ego"], policy=unit["policy"], mgr=unit["mgr"], crit=unit["crit"],
                      ests=[est[i] for i in es], gts=[gt[j] for j in gs], seed=_SEED[0])
+            if unit.get("ego_override") and not unit.get("tilt"):
+                c["ego_override"] = unit["ego_override"]
+            if unit.get("str_frame"):
+                c["str_frame"] = True
             if unit.get("tilt"):
                 c["ego_override"] = unit["ego_override"]
                 c["tilt"] = True
@@ -413,6 +425,9 @@ def check_case(case, acc):
             ego = _ego_at(base_ego, k)
             ests = [G.mk3d(dict(s, t=100 + k), rendering, ego) for s in es]
             gts = [G.mk3d(dict(s, t=100 + k), rendering, ego) for s in gs]
+            if case.get("str_frame") and rendering == "map":
+                for o in ests + gts:
+                    o.frame_id = "map"
             acc.exec()
             fr = m.add_frame_result(100 + k, F.frame_gt(gts, ego, 100 + k, str(k)), ests, F.crit_config(m.evaluator_config, S.CRIT[case["crit"]]),
                                     F.pf_config(m.evaluator_config, S.THR["per_label"]))
@@ -424,7 +439,8 @@ def check_case(case, acc):
     acc.compared()
     a, b = runs["base_link"], runs["map"]
     last = a[-2]
-    acc.state((case["task"], case["policy"], case["mgr"], case["crit"], case["ego_index"], case.get("pattern"),
+    acc.state((case["task"], case["policy"], case["mgr"], case["crit"], case["ego_index"], tuple(case.get("ego_override") or ()), bool(case.get("str_frame")),
+               bool(case.get("tilt")), case.get("pattern"),
                tuple(last["pairs"]), tuple(last["tp"]), tuple(last["fn"]), tuple(last["critical_gt"])),
               nontrivial=len(last["critical_gt"]) < len(case["gts"]) or len(last["pairs"]) < len(case["ests"]) or bool(last["fp"]) or bool(last["fn"]))
     acc.outcome((tuple(last["tp"]), tuple(last["fp"]), tuple(last["fn"])))
